@@ -14,6 +14,7 @@ mod c19;
 mod canon;
 mod wrap;
 mod common;
+mod gen_sql;
 mod cursor;
 mod exprprint;
 mod o_text;
